@@ -155,9 +155,9 @@ func (c *Checker) Check(filename string, src []byte) *Result {
 	r := &Result{}
 	conf := types.Config{Importer: c, Error: func(err error) {
 		if te, ok := err.(types.Error); ok {
-			if !te.Soft || strings.Contains(te.Msg, "declared and not used") || strings.Contains(te.Msg, "imported and not used") {
-				r.Errs = append(r.Errs, te)
-			}
+			// "soft" errors (unused variables/imports/labels, := without new variables, ...) are rejected by
+			// the compiler as well: every error counts
+			r.Errs = append(r.Errs, te)
 		}
 	}}
 	pkg, _ := conf.Check(f.Name.Name, fset, []*ast.File{f}, nil)
